@@ -11,7 +11,7 @@ from .cpu import QvmCpu, QVM_DEVICES
 from .cell import CellType
 from .trap import TrapCode
 from .subterminal import SubTerminal
-from .utils import format_number
+from .utils import format_number, parse_float
 from .exceptions import DeviceError
 
 
@@ -367,7 +367,7 @@ class TerminalDevice(Device):
                     pushes.append((CellType.LONG, v))
                 elif vtype == 3:  # SINGLE
                     try:
-                        v = float(v)
+                        v = parse_float(v)
                     except ValueError:
                         return False
                     if not expr.Type.SINGLE.can_hold(v):
@@ -375,7 +375,7 @@ class TerminalDevice(Device):
                     pushes.append((CellType.SINGLE, v))
                 elif vtype == 4:  # DOUBLE
                     try:
-                        v = float(v)
+                        v = parse_float(v)
                     except ValueError:
                         return False
                     if not expr.Type.DOUBLE.can_hold(v):
@@ -473,10 +473,10 @@ class DataDevice(Device):
                 value = 0 if s == Empty.value else int(s)
                 self.cpu.push(CellType.LONG, value)
             elif data_type == 3:
-                value = 0.0 if s == Empty.value else float(s)
+                value = 0.0 if s == Empty.value else parse_float(s)
                 self.cpu.push(CellType.SINGLE, value)
             elif data_type == 4:
-                value = 0.0 if s == Empty.value else float(s)
+                value = 0.0 if s == Empty.value else parse_float(s)
                 self.cpu.push(CellType.DOUBLE, value)
             elif data_type == 5:
                 value = '' if s == Empty.value else s
